@@ -354,7 +354,8 @@ class Tracker:
                     scoring_method(f, x.feature)
                     for x in candidates_feature_dict[track_id]
                 ]
-                oks = scoring_reduction(oks)  # scoring reduction
+                # a track with no instance left in the window is not a candidate
+                oks = scoring_reduction(oks) if len(oks) > 0 else np.nan
                 scores[f_idx][track_id] = oks
 
         return scores
@@ -388,7 +389,10 @@ class Tracker:
 
         matching_method = self._track_matching_methods[self.track_matching_method]
 
-        row_inds, col_inds = matching_method(cost_matrix)
+        # tracks that dropped out of the window (all-inf columns) can't be matched
+        valid_cols = np.where(np.isfinite(cost_matrix).any(axis=0))[0]
+        row_inds, col_inds = matching_method(cost_matrix[:, valid_cols])
+        col_inds = [valid_cols[col] for col in col_inds]
         tracking_scores = [
             -cost_matrix[row, col] for row, col in zip(row_inds, col_inds)
         ]
